@@ -132,9 +132,17 @@ class Ctx:
         return allok, aout
 
     # ---------- correspondence ----------
+    def oracle_bin(self):
+        """A private copy of rie-oracle (another check may relink the shared one meanwhile)."""
+        mine = os.path.join(self.work, "rie-oracle")
+        if not os.path.exists(mine):
+            with Lock("lake"):
+                shutil.copy(ORACLE, mine)
+        return mine
+
     def oracle(self, model, trace_path):
         with open(trace_path, "rb") as f:
-            p = subprocess.run([ORACLE, model], stdin=f, stdout=subprocess.PIPE, stderr=subprocess.STDOUT, timeout=1800)
+            p = subprocess.run([self.oracle_bin(), model], stdin=f, stdout=subprocess.PIPE, stderr=subprocess.STDOUT, timeout=1800)
         out = p.stdout.decode(errors="replace")
         mism = [l for l in out.splitlines() if l.startswith("MISMATCH")]
         m = re.search(r"SUMMARY cases=(\d+) steps=(\d+) mismatches=(\d+)", out)
@@ -260,25 +268,28 @@ def parse_trace_cases(path):
 
 
 def parallel(cmds, timeout=3000, env=None):
-    """Run a list of argv lists concurrently (≤16 at a time); return list of (rc, output)."""
+    """Run a list of argv lists concurrently (≤16 at a time); return list of (rc, output).
+    Output goes through temp files (a child that prints more than a pipe buffer must not block)."""
+    import tempfile
     res = [None] * len(cmds)
     running = []
     i = 0
     maxp = int(os.environ.get("VERIF_JOBS", "16"))
     while i < len(cmds) or running:
         while i < len(cmds) and len(running) < maxp:
-            p = subprocess.Popen(cmds[i], stdout=subprocess.PIPE, stderr=subprocess.STDOUT, text=True, errors="replace", env=env)
-            running.append((i, p, time.time()))
+            tf = tempfile.TemporaryFile(mode="w+", errors="replace")
+            p = subprocess.Popen(cmds[i], stdout=tf, stderr=subprocess.STDOUT, env=env)
+            running.append((i, p, time.time(), tf))
             i += 1
         still = []
-        for (k, p, t0) in running:
+        for (k, p, t0, tf) in running:
             if p.poll() is not None:
-                res[k] = (p.returncode, p.stdout.read())
+                tf.seek(0); res[k] = (p.returncode, tf.read()[-200000:]); tf.close()
             elif time.time() - t0 > timeout:
-                p.kill()
-                res[k] = (-9, "timeout")
+                p.kill(); p.wait()
+                tf.seek(0); res[k] = (-9, "timeout\n" + tf.read()[-20000:]); tf.close()
             else:
-                still.append((k, p, t0))
+                still.append((k, p, t0, tf))
         running = still
         time.sleep(0.02)
     return res
